@@ -59,7 +59,8 @@ class Frag:
         self.atoms = {}          # node id -> dict
         self.order = []          # predicted atom order (node ids)
         self.bonds = []          # (u, v, order, tag)
-        self.marks = []          # (narrow, wide, kind)
+        self.marks = []          # (narrow, wide, kind, Display)
+        self.mark_ids = []       # id of the drawn <b> element of each mark (parallel to marks)
         self.hapto_centres = set()
         self.hapto_atoms = set()
         self.nested = 0
@@ -177,10 +178,13 @@ def _walk(frag_elt) -> Frag:
         f.bonds.append((B, E, b.get("Order") or "1", "dash" if disp == "Dash" else ""))
         if disp in ("WedgeBegin", "WedgedHashBegin"):
             f.marks.append((B, E, "wedge" if disp == "WedgeBegin" else "hash", disp))
+            f.mark_ids.append(b.get("id"))
         elif disp in ("WedgeEnd", "WedgedHashEnd"):
             f.marks.append((E, B, "wedge" if disp == "WedgeEnd" else "hash", disp))
+            f.mark_ids.append(b.get("id"))
         elif disp in ("Bold", "Hash"):
             f.marks.append((B, E, "bold" if disp == "Bold" else "bhash", disp))
+            f.mark_ids.append(b.get("id"))
 
     adj = f.adjacency()
     for u, v, _k, _d in f.marks:
@@ -219,6 +223,7 @@ def _walk(frag_elt) -> Frag:
         f.bonds.extend(sub.bonds)
         f.bonds.append((x, y, "1", "" if (o1, t1, o2, t2) == ("1", "", "1", "") else "any"))
         f.marks.extend(sub.marks)
+        f.mark_ids.extend(sub.mark_ids)
         f.hapto_centres |= sub.hapto_centres
         f.hapto_atoms |= sub.hapto_atoms
         f.nested += 1 + sub.nested
@@ -298,6 +303,49 @@ def mirror_marks(text: str) -> tuple[str, int]:
 
     out = re.sub(r'Display="(' + "|".join(MIRROR) + r')"', sub, text)
     return out, n
+
+
+FLIP = {"WedgeBegin": "WedgeEnd", "WedgeEnd": "WedgeBegin",
+        "WedgedHashBegin": "WedgedHashEnd", "WedgedHashEnd": "WedgedHashBegin"}
+
+
+def flip_ends(text: str) -> tuple[str, int]:
+    """the same drawing written the other way round: every wedge / hashed wedge bond gets its B and E atoms exchanged
+    and Begin <-> End in its Display attribute (the narrow end stays at the same atom)"""
+    n = 0
+
+    def one(m):
+        nonlocal n
+        tag = m.group(0)
+        md = re.search(r'\sDisplay="(' + "|".join(FLIP) + r')"', tag)
+        mb, me = re.search(r'\sB="(\d+)"', tag), re.search(r'\sE="(\d+)"', tag)
+        if not (md and mb and me):
+            return tag
+        n += 1
+        parts = sorted([(mb.start(1), mb.end(1), me.group(1)), (me.start(1), me.end(1), mb.group(1)),
+                        (md.start(1), md.end(1), FLIP[md.group(1)])], reverse=True)
+        for a, b, new in parts:
+            tag = tag[:a] + new + tag[b:]
+        return tag
+
+    return re.sub(r"<b\s(?:\"[^\"]*\"|[^>\"])*>", one, text), n
+
+
+def strip_mark(text: str, bond_id: str) -> tuple[str, int]:
+    """the same drawing without the stereo mark of ONE bond (its Display attribute is removed)"""
+    n = 0
+
+    def one(m):
+        nonlocal n
+        tag = m.group(0)
+        if not re.search(r'\sid="' + re.escape(bond_id) + '"', tag):
+            return tag
+        new = re.sub(r'\sDisplay="(?:' + "|".join(MIRROR) + r')"', "", tag)
+        if new != tag:
+            n += 1
+        return new
+
+    return re.sub(r"<b\s(?:\"[^\"]*\"|[^>\"])*>", one, text), n
 
 
 def _page_children(text: str):
